@@ -19,52 +19,57 @@
 (*            only if the publisher retained it                        (C01, C07)         *)
 (*   Bounded  no more copies than twice the session's matching subscriptions              *)
 EXTENDS Integers, FiniteSets, Sequences, TLC, Json
-VARIABLES l, subs, pubs, recv, live, order
+VARIABLES l, subs, pubs, recv, live, order, cid, left
 T == INSTANCE Topics
 Trace == ndJsonDeserialize("trace.ndjson")
 Ev == Trace[l]
-vars == <<l, subs, pubs, recv, live, order>>
+vars == <<l, subs, pubs, recv, live, order, cid, left>>
 Dom(f) == DOMAIN f
 Get(f, k, d) == IF k \in DOMAIN f THEN f[k] ELSE d
 Upd(f, k, v) == (k :> v) @@ f
 Filters(fs) == {fs[i].f : i \in 1..Len(fs)}
 
-TInit == TLCSet(1, 0) /\ l = 1 /\ subs = {} /\ pubs = <<>> /\ recv = <<>> /\ live = {} /\ order = <<>>
+TInit == TLCSet(1, 0) /\ l = 1 /\ subs = {} /\ pubs = <<>> /\ recv = <<>> /\ live = {} /\ order = <<>> /\ cid = <<>> /\ left = {}
 
 \* subs: [c, f, id, req (index of the SUBSCRIBE), ack (index of the SUBACK, 0), unreq, unack (UNSUBSCRIBE / UNSUBACK indices, 0)]
 SendSubscribe ==
   /\ Ev.op = "cli.send" /\ Ev.kind = "SUBSCRIBE" /\ "dropped" \notin DOMAIN Ev
   /\ subs' = subs \cup {[c |-> Ev.c, f |-> f, id |-> Ev.id, req |-> l, ack |-> 0, unreq |-> 0, unack |-> 0] : f \in Filters(Ev.fs)}
-  /\ UNCHANGED <<pubs, recv, live, order>>
+  /\ UNCHANGED <<pubs, recv, live, order, cid, left>>
 SubAck ==
   /\ Ev.op = "srv.write" /\ Ev.kind = "SUBACK"
   /\ subs' = {IF s.c = Ev.c /\ s.id = Ev.id /\ s.ack = 0 THEN [s EXCEPT !.ack = l] ELSE s : s \in subs}
-  /\ UNCHANGED <<pubs, recv, live, order>>
+  /\ UNCHANGED <<pubs, recv, live, order, cid, left>>
 SendUnsubscribe ==
   /\ Ev.op = "cli.send" /\ Ev.kind = "UNSUBSCRIBE" /\ "dropped" \notin DOMAIN Ev
   /\ subs' = {IF s.c = Ev.c /\ s.f \in Filters(Ev.fs) /\ s.unreq = 0 THEN [s EXCEPT !.unreq = l, !.id = Ev.id] ELSE s : s \in subs}
-  /\ UNCHANGED <<pubs, recv, live, order>>
+  /\ UNCHANGED <<pubs, recv, live, order, cid, left>>
 UnsubAck ==
   /\ Ev.op = "srv.write" /\ Ev.kind = "UNSUBACK"
   /\ subs' = {IF s.c = Ev.c /\ s.unreq > 0 /\ s.unack = 0 /\ s.id = Ev.id THEN [s EXCEPT !.unack = l] ELSE s : s \in subs}
-  /\ UNCHANGED <<pubs, recv, live, order>>
+  /\ UNCHANGED <<pubs, recv, live, order, cid, left>>
 \* pubs: payload -> [c, id, t, r, q, sent, acked]; order: topic -> sequence of retained payloads in the order they were sent
 SendPublish ==
   /\ Ev.op = "cli.send" /\ Ev.kind = "PUBLISH" /\ "dropped" \notin DOMAIN Ev /\ Ev.p # ""
   /\ Ev.p \notin Dom(pubs)
   /\ pubs' = Upd(pubs, Ev.p, [c |-> Ev.c, id |-> Ev.id, t |-> Ev.t, r |-> Ev.r, q |-> Ev.q, sent |-> l, acked |-> 0])
   /\ order' = IF Ev.r THEN Upd(order, Ev.t, Append(Get(order, Ev.t, <<>>), Ev.p)) ELSE order
-  /\ UNCHANGED <<subs, recv, live>>
+  /\ UNCHANGED <<subs, recv, live, cid, left>>
 PubAck ==
   /\ Ev.op = "srv.write" /\ Ev.kind \in {"PUBACK", "PUBCOMP"}
   /\ pubs' = [p \in Dom(pubs) |-> IF pubs[p].c = Ev.c /\ pubs[p].id = Ev.id /\ pubs[p].acked = 0 THEN [pubs[p] EXCEPT !.acked = l] ELSE pubs[p]]
-  /\ UNCHANGED <<subs, recv, live, order>>
+  /\ UNCHANGED <<subs, recv, live, order, cid, left>>
 Connected ==
   /\ Ev.op = "srv.write" /\ Ev.kind = "CONNACK" /\ Ev.code = 0
-  /\ live' = live \cup {Ev.c} /\ UNCHANGED <<subs, pubs, recv, order>>
+  /\ live' = live \cup {Ev.c} /\ UNCHANGED <<subs, pubs, recv, order, cid, left>>
+SendConnect ==
+  /\ Ev.op = "cli.send" /\ Ev.kind = "CONNECT"
+  /\ cid' = Upd(cid, Ev.c, Ev.client) /\ UNCHANGED <<subs, pubs, recv, live, order, left>>
 Gone ==
   /\ Ev.op \in {"srv.close", "cli.close"} \/ (Ev.op = "cli.send" /\ Ev.kind = "DISCONNECT")
-  /\ live' = live \ {Ev.c} /\ UNCHANGED <<subs, pubs, recv, order>>
+  /\ live' = live \ {Ev.c}
+  /\ left' = IF Ev.op = "srv.close" THEN left ELSE left \cup {Ev.c}          \* the client itself hung up
+  /\ UNCHANGED <<subs, pubs, recv, order, cid>>
 
 Matching(c, t) == {s \in subs : s.c = c /\ T!Matches(s.f, t)}
 Deliver ==
@@ -76,7 +81,7 @@ Deliver ==
      /\ \E s \in Matching(Ev.c, p.t) : s.req < l /\ (s.unack = 0 \/ p.sent < s.unack)     \* Only
      /\ Get(recv, <<Ev.c, Ev.p>>, 0) < 2 * Cardinality(Matching(Ev.c, p.t))              \* Bounded
   /\ recv' = Upd(recv, <<Ev.c, Ev.p>>, Get(recv, <<Ev.c, Ev.p>>, 0) + 1)
-  /\ UNCHANGED <<subs, pubs, live, order>>
+  /\ UNCHANGED <<subs, pubs, live, order, cid, left>>
 
 Active(s) == s.ack > 0 /\ s.unreq = 0 /\ s.c \in live
 Sequential(ps) == \A i \in 1..(Len(ps) - 1) : pubs[ps[i]].acked > 0 /\ pubs[ps[i]].acked < pubs[ps[i + 1]].sent
@@ -90,24 +95,40 @@ Quiescent ==
         LET ps == order[t] last == ps[Len(ps)] IN
         (Sequential(ps) /\ pubs[last].c \in live) =>
           \A s \in subs : (Active(s) /\ T!Matches(s.f, t)) => Get(recv, <<s.c, last>>, 0) >= 1
-  /\ UNCHANGED <<subs, pubs, recv, live, order>>
+  /\ UNCHANGED <<subs, pubs, recv, live, order, cid, left>>
 
 \* C06 at the writer: in these scenarios every client acknowledges at once and sweeps precede the probe, so no packet
 \* identifier may still be held when everything is quiet
-Probe == Ev.op = "probe" /\ Len(Ev.held) = 0 /\ UNCHANGED <<subs, pubs, recv, live, order>>
+\* C11: and every listed session and subscription belongs to a connection that is still there
+OfLive(sid) == \E c \in live : sid = "s" \o ToString(c)
+\* C12: of the sessions accepted for one client identifier, one is left when everything is quiet (unless every client that
+\* used it hung up itself), and that is what the identifier resolves to
+WasAccepted(c) == \E j \in 1..(l - 1) : Trace[j].op = "srv.write" /\ Trace[j].kind = "CONNACK" /\ Trace[j].code = 0 /\ Trace[j].c = c
+Users(x) == {c \in Dom(cid) : cid[c] = x /\ WasAccepted(c)}
+OneSessionPerClientId ==
+  \A x \in {cid[c] : c \in Dom(cid)} :
+     /\ (Users(x) \ left # {}) => Users(x) \cap live # {}
+     /\ \A i \in 1..Len(Ev.resolve) : Ev.resolve[i].client = x => \E c \in Users(x) \cap live : Ev.resolve[i].s = "s" \o ToString(c)
+Probe == /\ Ev.op = "probe" /\ Len(Ev.held) = 0
+         /\ \A i \in 1..Len(Ev.sessions) : OfLive(Ev.sessions[i].s)
+         /\ \A i \in 1..Len(Ev.subs) : OfLive(Ev.subs[i].s)
+         /\ \A i \in 1..Len(Ev.local) : OfLive(Ev.local[i])                  \* the node's registry holds no session that is gone (C11, C20)
+         /\ OneSessionPerClientId
+         /\ UNCHANGED <<subs, pubs, recv, live, order, cid, left>>
 Other ==
   /\ Ev.op # "probe"
   /\ ~(Ev.op = "cli.send" /\ Ev.kind \in {"SUBSCRIBE", "UNSUBSCRIBE", "PUBLISH", "DISCONNECT"} /\ "dropped" \notin DOMAIN Ev)
+  /\ ~(Ev.op = "cli.send" /\ Ev.kind = "CONNECT")
   /\ ~(Ev.op = "srv.write" /\ Ev.kind \in {"SUBACK", "UNSUBACK", "PUBACK", "PUBCOMP", "PUBLISH", "CONNACK"})
   /\ Ev.op \notin {"srv.close", "cli.close", "quiescent", "new", "stall", "process.died"}
-  /\ UNCHANGED <<subs, pubs, recv, live, order>>
-New == Ev.op = "new" /\ subs' = {} /\ pubs' = <<>> /\ recv' = <<>> /\ live' = {} /\ order' = <<>>
-EmptyPublish == Ev.op \in {"cli.send", "srv.write"} /\ Ev.kind = "PUBLISH" /\ Ev.p = "" /\ UNCHANGED <<subs, pubs, recv, live, order>>
-Refused == Ev.op = "srv.write" /\ Ev.kind = "CONNACK" /\ Ev.code # 0 /\ UNCHANGED <<subs, pubs, recv, live, order>>
+  /\ UNCHANGED <<subs, pubs, recv, live, order, cid, left>>
+New == Ev.op = "new" /\ subs' = {} /\ pubs' = <<>> /\ recv' = <<>> /\ live' = {} /\ order' = <<>> /\ cid' = <<>> /\ left' = {}
+EmptyPublish == Ev.op \in {"cli.send", "srv.write"} /\ Ev.kind = "PUBLISH" /\ Ev.p = "" /\ UNCHANGED <<subs, pubs, recv, live, order, cid, left>>
+Refused == Ev.op = "srv.write" /\ Ev.kind = "CONNACK" /\ Ev.code # 0 /\ UNCHANGED <<subs, pubs, recv, live, order, cid, left>>
 
 Step == /\ l <= Len(Trace) /\ l' = l + 1
         /\ \/ New \/ SendSubscribe \/ SubAck \/ SendUnsubscribe \/ UnsubAck \/ SendPublish \/ PubAck \/ Connected \/ Gone
-           \/ Deliver \/ Quiescent \/ Other \/ EmptyPublish \/ Refused \/ Probe
+           \/ Deliver \/ Quiescent \/ Other \/ EmptyPublish \/ Refused \/ Probe \/ SendConnect
 TSpec == TInit /\ [][Step]_vars
 HighWater == TLCSet(1, IF TLCGet(1) > l THEN TLCGet(1) ELSE l)
 Accepted == IF TLCGet(1) - 1 = Len(Trace) THEN PrintT("TRACE_ACCEPTED")
